@@ -64,7 +64,8 @@ type c08In struct {
 	Component bool       `json:"component,omitempty"`
 	SM        bool       `json:"sm,omitempty"`
 	Log       bool       `json:"log,omitempty"`
-	Conn      int        `json:"conn,omitempty"` // 0: connected  1: no transport (nil)  2: a transport that was never connected
+	Conn      int        `json:"conn,omitempty"` // 0: connected  1: no transport (nil)  2: a TCP transport that was never connected  3: a WebSocket transport that was never connected  4: a WebSocket transport whose dial was refused
+	NoSess    bool       `json:"nosess,omitempty"` // client: no session object (before Connect, or after a failed Connect/Resume)
 	SockF     []c08Fault `json:"sockf,omitempty"`
 	Ops       []c08Op    `json:"ops,omitempty"`
 	// tcp / ws
@@ -301,7 +302,7 @@ func (in *c08In) rejected(i int) bool { o := in.Ops[i]; return o.K == "sendiq" &
 // pushing: the ops whose payload a client with stream management holds in the queue
 func (in *c08In) pushing() []c08Op {
 	var r []c08Op
-	if in.Component || !in.SM || in.Conn == 1 {
+	if in.Component || !in.SM || in.NoSess || in.Conn == 1 {
 		return nil
 	}
 	for i, o := range in.Ops {
@@ -310,6 +311,27 @@ func (in *c08In) pushing() []c08Op {
 		}
 	}
 	return r
+}
+
+func c08PanicSig(in *c08In) string {
+	switch {
+	case in.Conn >= 3:
+		return "send-panics-websocket-not-connected"
+	case in.SM && in.NoSess:
+		return "send-panics-sm-without-session"
+	}
+	return "send-panics"
+}
+
+// c08ClosedPort: a loopback address nobody listens on
+func c08ClosedPort() string {
+	ln, err := net.Listen("tcp", "127.0.0.1:0")
+	if err != nil {
+		return "127.0.0.1:1"
+	}
+	a := ln.Addr().String()
+	ln.Close()
+	return a
 }
 
 func c08RunSeq(in *c08In) Sx {
@@ -335,7 +357,11 @@ func c08RunSeq(in *c08In) Sx {
 		snd = c
 		queue = func() []string { return nil }
 	} else {
-		cfg := &xmpp.Config{TransportConfiguration: xmpp.TransportConfiguration{Address: "localhost:1"}, Jid: "u@localhost", Credential: xmpp.Password("p"), StreamManagementEnable: in.SM}
+		addr := "localhost:1"
+		if in.Conn >= 3 {
+			addr = "ws://" + c08ClosedPort() + "/xmpp-websocket"
+		}
+		cfg := &xmpp.Config{TransportConfiguration: xmpp.TransportConfiguration{Address: addr, ConnectTimeout: 1}, Jid: "u@localhost", Credential: xmpp.Password("p"), StreamManagementEnable: in.SM}
 		c, err := xmpp.NewClient(cfg, router, func(error) {})
 		if err != nil {
 			return L(SBytes("newclient-failed"))
@@ -345,16 +371,22 @@ func c08RunSeq(in *c08In) Sx {
 			xmpp.VerifSetTransport(c, tr)
 		case 1:
 			xmpp.VerifSetTransport(c, nil)
-		} // 2: NewClient has installed a transport that is not connected
-		sm := xmpp.SMState{}
-		if in.SM {
-			sm.Id = "smid"
-			sm.UnAckQueue = stanza.NewUnAckQueue()
+		case 4: // 2, 3: NewClient has installed a transport that is not connected; 4: and its dial fails
+			if _, err := xmpp.VerifTransport(c).Connect(); err == nil {
+				return L(SBytes("connect-to-closed-port-succeeded"))
+			}
 		}
-		xmpp.VerifSetSession(c, sm)
+		if !in.NoSess {
+			sm := xmpp.SMState{}
+			if in.SM {
+				sm.Id = "smid"
+				sm.UnAckQueue = stanza.NewUnAckQueue()
+			}
+			xmpp.VerifSetSession(c, sm)
+		}
 		snd = c
 		queue = func() []string {
-			if !in.SM {
+			if !in.SM || c.Session == nil {
 				return nil
 			}
 			var es []string
@@ -369,23 +401,31 @@ func c08RunSeq(in *c08In) Sx {
 	var steps []Sx
 	for _, o := range in.Ops {
 		s0 := sock.ncalls()
-		var err error
-		chanOK := true
-		switch o.K {
-		case "raw":
-			err = snd.SendRaw(o.rawString())
-		case "sendiq":
-			var ch chan stanza.IQ
-			ch, err = snd.SendIQ(ctx, o.packet().(*stanza.IQ))
-			chanOK = ch != nil
-		default:
-			err = snd.Send(o.packet())
-		}
+		res := func() (r Sx) {
+			defer func() {
+				if p := recover(); p != nil {
+					r = Z(9) // the call panicked in the caller's goroutine
+				}
+			}()
+			var err error
+			chanOK := true
+			switch o.K {
+			case "raw":
+				err = snd.SendRaw(o.rawString())
+			case "sendiq":
+				var ch chan stanza.IQ
+				ch, err = snd.SendIQ(ctx, o.packet().(*stanza.IQ))
+				chanOK = ch != nil
+			default:
+				err = snd.Send(o.packet())
+			}
+			return c08Result(err, chanOK)
+		}()
 		var ws []string
 		for _, w := range sock.since(s0) {
 			ws = append(ws, o.tok(w))
 		}
-		steps = append(steps, L(c08Result(err, chanOK), c08Strs(ws)))
+		steps = append(steps, L(res, c08Strs(ws)))
 	}
 	// queue payloads, each read as the op that (by the push rule) put it there
 	push := in.pushing()
@@ -437,7 +477,13 @@ func c08OpsSx(in *c08In) Sx {
 }
 
 func c08InputSeq(in *c08In) Sx {
-	return L(Z(0), L(B(in.Component), B(in.SM), B(in.Log), Zi(in.Conn)), c08FaultsSx(in.SockF), L(), c08OpsSx(in))
+	// the model's c_sm is "stream management bookkeeping is active": enabled and a session exists;
+	// its CFresh is any transport object that is not connected (TCP or WebSocket)
+	conn := in.Conn
+	if conn >= 3 {
+		conn = 2
+	}
+	return L(Z(0), L(B(in.Component), B(in.SM && !in.NoSess), B(in.Log), Zi(conn)), c08FaultsSx(in.SockF), L(), c08OpsSx(in))
 }
 
 func c08FaultAt(fs []c08Fault, k int) (c08Fault, bool) {
@@ -469,6 +515,9 @@ func c08OracleSeq(in *c08In, obs Sx) (string, string) {
 		res, sc := st.L[0].Z, st.L[1].L
 		want := o.want()
 		attempted := in.Conn == 0 && !in.rejected(i)
+		if res == 9 {
+			return fmt.Sprintf("op %d (%s; stream management %v, session present %v, connection state %d): the call panicked instead of returning nil or an error", i, o.K, in.SM, !in.NoSess, in.Conn), c08PanicSig(in)
+		}
 		if !attempted {
 			if len(sc) != 0 {
 				return fmt.Sprintf("op %d (%s): %d transport writes by an op that must not write", i, o.K, len(sc)), "write-by-rejected"
@@ -1372,7 +1421,7 @@ func (c08) Key(inp interface{}) (string, bool) {
 		}
 	}
 	var b strings.Builder
-	fmt.Fprintf(&b, "f%d ", in.FailFrom)
+	fmt.Fprintf(&b, "f%d ns%v ", in.FailFrom, in.NoSess)
 	fmt.Fprintf(&b, "%s c%v sm%v log%v nc%d|", in.Mode, in.Component, in.SM, in.Log, in.Conn)
 	if in.Mode == "seq" {
 		role := "client-sm-off"
@@ -1383,7 +1432,10 @@ func (c08) Key(inp interface{}) (string, bool) {
 		}
 		hist("cfg:" + role)
 		hist(fmt.Sprintf("cfg:logger=%v", in.Log))
-		hist([]string{"cfg:connected", "cfg:no-transport", "cfg:transport-never-connected"}[in.Conn%3])
+		hist([]string{"cfg:connected", "cfg:no-transport", "cfg:tcp-transport-never-connected", "cfg:ws-transport-never-connected", "cfg:ws-transport-dial-refused"}[in.Conn%5])
+		if in.NoSess {
+			hist("cfg:client-without-session")
+		}
 	}
 	writes := 0
 	for _, o := range in.Ops {
@@ -1507,6 +1559,13 @@ func (c08) Gen(r *rand.Rand, tier string) []interface{} {
 		&c08In{Mode: "seq", Conn: 2, SM: true, Log: true, Ops: []c08Op{{K: "msg", ID: "1"}, {K: "smr"}, {K: "raw", Raw: "x"}, {K: "sendiq", ID: "3", Typ: "get"}, {K: "sendiq", ID: "4", Typ: "result"}}},
 		&c08In{Mode: "seq", Conn: 2, Component: true, Ops: []c08Op{{K: "msg", ID: "1"}, {K: "raw", Raw: "x"}, {K: "sendiq", ID: "3", Typ: "get"}}},
 		&c08In{Mode: "seq", Conn: 1, Component: true, Ops: []c08Op{{K: "msg", ID: "1"}, {K: "raw", Raw: "x"}, {K: "sendiq", ID: "3", Typ: "get"}}},
+		// no session object (before Connect / after a failed Connect or Resume), stream management on
+		&c08In{Mode: "seq", SM: true, NoSess: true, Conn: 2, Ops: []c08Op{{K: "msg", ID: "1"}, {K: "raw", Raw: "x"}, {K: "sendiq", ID: "3", Typ: "get"}}},
+		&c08In{Mode: "seq", SM: true, NoSess: true, Ops: []c08Op{{K: "msg", ID: "1"}, {K: "raw", Raw: "x"}, {K: "sendiq", ID: "3", Typ: "get"}, {K: "smr"}}},
+		&c08In{Mode: "seq", NoSess: true, Conn: 2, Ops: []c08Op{{K: "msg", ID: "1"}, {K: "raw", Raw: "x"}}},
+		// WebSocket transport without a connection
+		&c08In{Mode: "seq", Conn: 3, Ops: []c08Op{{K: "msg", ID: "1"}, {K: "raw", Raw: "x"}, {K: "sendiq", ID: "3", Typ: "get"}}},
+		&c08In{Mode: "seq", Conn: 4, SM: true, Log: true, Ops: []c08Op{{K: "msg", ID: "1"}, {K: "raw", Raw: "x"}, {K: "sendiq", ID: "3", Typ: "set"}, {K: "sendiq", ID: "4", Typ: "result"}}},
 		&c08In{Mode: "seq", Ops: []c08Op{{K: "raw", Raw: "abc"}}, SockF: []c08Fault{{K: 0, Kind: 2, N: 1}}}, // short count, nil error, no logger: not reported (io.Writer contract broken by the socket)
 		&c08In{Mode: "logger", Ops: []c08Op{{K: "raw", Raw: ""}, {K: "raw", Raw: "abc"}, {K: "raw", Raw: "de"}}, SockF: []c08Fault{{K: 1, Kind: 2, N: 2}, {K: 2, Kind: 2, N: 2}}},
 	)
@@ -1521,8 +1580,14 @@ func (c08) Gen(r *rand.Rand, tier string) []interface{} {
 			in.SM = r.Intn(8) == 0 // ignored by components
 		}
 		in.Log = r.Intn(2) == 0
-		if r.Intn(15) == 0 {
+		if r.Intn(12) == 0 {
 			in.Conn = 1 + r.Intn(2)
+			if !in.Component && r.Intn(3) == 0 {
+				in.Conn = 3 + r.Intn(2)
+			}
+		}
+		if !in.Component && r.Intn(10) == 0 {
+			in.NoSess = true
 		}
 		big := r.Intn(12) == 0
 		nops := 1 + r.Intn(12)
